@@ -572,8 +572,13 @@ func runC10RunScenario(rec *Recorder, r *rand.Rand) {
 		cfg.Fans[0].Theta = rf.Theta
 	}
 	cfg.CurveValue = func(n int) int { return cv }
-	// store the characterisation first (same database), with a fan that turns everywhere
-	{
+	// store the characterisation first (same database), with a fan that turns everywhere - except for some hwmon fans,
+	// whose FIRST start (analysis, second attachment of limits, then regulation) is the run that is observed
+	firstStart := rf.Spec.Kind == "hwmon" && rf.Theta < 255 && r.Intn(3) == 0
+	if firstStart {
+		cfg.Fans[0].Spec.CfgMap = nil // (the PWM map is swept as well)
+	}
+	if !firstStart {
 		null, _ := NewRecorder(os.DevNull)
 		pc := cfg
 		pc.Fans = []RunFan{rf}
